@@ -26,6 +26,28 @@ def ev(e: ast.expr, env: dict[str, object]):
         if key in env:
             return env[key]
         raise PredUnsupported(f"predicate mentions `{key}`, which is not one of the modelled quantities {sorted(env)}")
+    if isinstance(e, (ast.Call, ast.Subscript)) and norm(e) in env:
+        return env[norm(e)]  # a modelled quantity spelled as a call or an item, e.g. `len(atoms)`
+    if isinstance(e, ast.Tuple):
+        return tuple(ev(x, env) for x in e.elts)
+    if isinstance(e, ast.Subscript) and isinstance(e.slice, ast.Constant) and isinstance(e.slice.value, int):
+        v = ev(e.value, env)
+        if isinstance(v, tuple):
+            try:
+                return v[e.slice.value]
+            except IndexError:
+                raise Raises("IndexError") from None
+        if v is None or isinstance(v, (int, float)):
+            raise Raises("TypeError")
+    if isinstance(e, ast.Call) and norm(e.func) == "isinstance" and len(e.args) == 2:
+        v = ev(e.args[0], env)
+        names = [norm(x) for x in (e.args[1].elts if isinstance(e.args[1], ast.Tuple) else [e.args[1]])]
+        if isinstance(e.args[1], ast.BinOp):
+            names = [x.strip() for x in norm(e.args[1]).split("|")]
+        table = {"int": int, "float": float, "tuple": tuple, "bool": bool, "list": list, "np.integer": (), "numbers.Integral": int, "Integral": int}
+        if not all(n in table for n in names):
+            raise PredUnsupported(f"isinstance against `{norm(e.args[1])}`")
+        return any(isinstance(v, table[n]) for n in names if table[n] != ())
     if isinstance(e, ast.Constant):
         if isinstance(e.value, (bool, int, float)) or e.value is None:
             return e.value
